@@ -64,6 +64,22 @@ fn main() {
             }
             std::process::exit(replay(&args[2]));
         }
+        // internal: one case in a child process, so that an abort of the process (stack overflow,
+        // allocation failure) is an observation of the parent instead of the end of the check
+        "isolated" => {
+            if args.len() < 4 {
+                usage();
+            }
+            let arg: Value = serde_json::from_str(&args[3]).unwrap_or(Value::Null);
+            let res = match args[2].as_str() {
+                "C12" => props::c12::isolated(&arg),
+                _ => usage(),
+            };
+            for (k, w) in res {
+                println!("ISOLATED-RESULT {}", serde_json::json!([k, w]));
+            }
+            println!("ISOLATED-DONE");
+        }
         _ => usage(),
     }
 }
